@@ -83,9 +83,16 @@ def table_event(name):
     cat = info.category or ""
     head, _, sub = cat.partition(":")
     rows = []
+    # the unit written in the row of the definition's own table (for the k-th member of a vector: the vector's row)
+    declared = {}
+    for kp in info.parameters.kernel_parameters:
+        if kp.length > 1:
+            declared.update((kp.id + str(k), str(kp.units)) for k in range(1, kp.length + 1))
+        else:
+            declared[kp.id] = str(kp.units)
     for p in kernel_call_parameters(info):
         lo, hi = p.limits
-        rows.append({"name": p.name, "units": str(p.units), "type": p.type or "",
+        rows.append({"name": p.name, "units": str(p.units), "decl": declared.get(p.id, str(p.units)), "type": p.type or "",
                      "pd": bool(p.polydisperse), "relpd": bool(p.relative_pd),
                      "control": bool(p.is_control),
                      "integer": bool(p.is_control or (p.choices and len(p.choices) > 0)),
